@@ -60,8 +60,11 @@ ASSUMPTIONS = [
     "without l t g a m p # 3 4 9 ; (checked by an assertion in the generator), the `safe` "
     "filter, Markup data and __html__ objects are never used",
     "default environment registration of the translation filters "
-    "(auto_escape_message = env.auto_escape); register_translation_filters(..., "
-    "autoescape_message=False) declares message text trusted and is out of scope",
+    "(auto_escape_message = env.auto_escape). liquid2.builtin.register_translation_filters("
+    "env) with its documented default autoescape_message=False is an explicit integrator "
+    "configuration that declares message text trusted: it is outside the statement's "
+    "quantifier (ruled by the coordinator) and is deliberately NOT part of the `config` "
+    "shard, which covers only a caching loader shared by two environments",
     "filters that cut or rewrite text are not applied *after* newline_to_br (nor to a "
     "capture containing its result): a mangled `<br />` is engine markup, not data, and "
     "would be indistinguishable from a raw `<` by text alone",
@@ -354,7 +357,11 @@ class Engine:
                 return v
         if amp:
             self.ctx.count("amp_candidates")
-            cf = counterfactual(case["data"])
+            cf = case.get("cf_data")
+            if callable(cf):
+                cf = cf()
+            if cf is None:
+                cf = counterfactual(case["data"])
             for p in case.get("pre") or ():
                 self.render(p["main"], p.get("templates") or {},
                             counterfactual(p.get("data") or {}), "sync", profile, catalog)
@@ -530,6 +537,7 @@ class Gen:
         self.rng = rng
         self.profile = profile.split("+")[0]
         self.urate = urate
+        self.uatoms = U_ATOMS
         avail = [n for n in names if n in FT]
         self.cats: dict[str, list[str]] = {"str": [], "list": [], "num": []}
         for n in avail:
@@ -547,7 +555,7 @@ class Gen:
 
     def var(self, nolit: bool = False) -> str:
         if self.urate and self.rng.random() < self.urate:
-            return self.rng.choice(U_ATOMS)
+            return self.rng.choice(self.uatoms)
         r = self.rng.random()
         if r < 0.6:
             return self.rng.choice(STR_VARS)
@@ -586,6 +594,8 @@ class Gen:
             return r.choice(["0", "1", "2", "5", "7", "8", "-1", "-2", "n1", "n2", "n5", "10",
                              "15", "20", "n9"])
         if kind == "L":
+            if self.urate >= 1.0:
+                return r.choice(self.uatoms)
             return r.choice(LIST_VARS)
         if kind == "K":
             return r.choice(["kk", "b0", "kk"] if nolit else ["'k'", "'v'", "'n'", "b0", "kk"])
@@ -1039,14 +1049,18 @@ def observe(eng: Engine, ctx: Ctx, stmts: list[Stmt], data: dict[str, Any], mode
 
 
 def shards(tier: str, seed: int) -> list[dict[str, Any]]:  # noqa: ARG001
-    n = 12 if tier == "quick" else 16
-    per = 2000 if tier == "quick" else 60000
+    n = 10 if tier == "quick" else 16
+    per = 1800 if tier == "quick" else 60000
     specs: list[dict[str, Any]] = [{"kind": "rand", "i": i, "n": n, "count": per}
                                    for i in range(n)]
     ns = 2 if tier == "quick" else 8
     specs += [{"kind": "sys", "i": i, "n": ns, "reps": 1 if tier == "quick" else 6}
               for i in range(ns)]
     specs.append({"kind": "datecache", "i": 0, "n": 1})
+    nd = 3 if tier == "quick" else 8
+    specs += [{"kind": "deep", "i": i, "n": nd, "reps": 1 if tier == "quick" else 4}
+              for i in range(nd)]
+    specs.append({"kind": "config", "i": 0, "n": 1})
     nu = 2 if tier == "quick" else 8
     specs += [{"kind": "undef", "i": i, "n": nu, "count": 1500 if tier == "quick" else 30000}
               for i in range(nu)]
@@ -1066,6 +1080,12 @@ def floors(tier: str) -> dict[str, int]:
         "undefined_text_with_taint_in_output": 500 * k,
         "undef_sweep_programs": 1_000,
         "set:undefined_policies": 4,
+        "deep_renders_with_flow": 3_000,
+        "set:deep_depths_with_flow": 11,
+        "set:deep_shapes_with_flow": 7,
+        "set:deep_sinks_with_flow": 14,
+        "config_sequences": 20,
+        "config_renders_with_flow": 20,
         "set:undefined_text_constructs": 20,
     }
 
@@ -1081,6 +1101,10 @@ def run_shard(spec: dict[str, Any], ctx: Ctx) -> None:
         _datecache(eng, spec, ctx)
     elif kind == "undef":
         _undef(eng, spec, ctx)
+    elif kind == "deep":
+        _deep(eng, spec, ctx)
+    elif kind == "config":
+        _config(eng, spec, ctx)
 
 
 def _rand(eng: Engine, spec: dict[str, Any], ctx: Ctx) -> None:
@@ -1187,6 +1211,340 @@ def _undef(eng: Engine, spec: dict[str, Any], ctx: Ctx) -> None:
         main, templates = build(last[0])
         ctx.sample({"kind": "undef", "main": main, "templates": templates, "mode": last[1],
                     "profile": last[2]})
+
+
+
+# ---------------------------------------------------------------------------
+# containers at boundary nesting depths
+# ---------------------------------------------------------------------------
+
+DEEP_DEPTHS = [0, 1, 2, 8, 31, 32, 33, 64, 200]
+DEEP_SHAPES = ["list", "tuple", "mixed", "single", "dag", "with-ranges", "dict-values"]
+DEEP_SINKS = UNDEF_SINKS + [
+    ("for", "{%% assign s = %s %%}{%% for x in s %%}{{ x }}{%% endfor %%}"),
+    ("template-string", "{%% assign s = %s %%}{{ 'c${s}e' }}{{ \"${s | upcase}\" }}"),
+    ("path", "{%% assign s = %s %%}{{ s[0] }}{{ s.first }}{{ s | first }}{{ s.last }}"),
+]
+DEEP_HEADS = ["a", "o.items", "a[0]"]
+# chains that stringify / pass on / re-wrap the container
+DEEP_CORE = [[], ["reverse"], ["append: b1"], ["join: b2"], ["default: b0"], ["upcase"],
+             ["compact"], ["concat: ls"], ["t"], ["slice: 0, 2"], ["first"], ["escape"]]
+
+
+def build_deep(shape: str, depth: int, leaves: list[str]) -> Any:
+    """A hostile string wrapped in `depth` containers of the given shape (built
+    iteratively), with a sibling hostile string at every level; acyclic."""
+    i = [0]
+
+    def leaf() -> str:
+        i[0] += 1
+        return leaves[(i[0] - 1) % len(leaves)]
+
+    v: Any = leaf()
+    lvl0 = 0
+    if shape == "dag":
+        # self-similar: the same sub-array object referenced twice (first 4 levels)
+        lvl0 = min(depth, 4)
+        for _ in range(lvl0):
+            v = [v, v]
+    for lvl in range(lvl0, depth):
+        s = leaf()
+        if shape in ("list", "dag"):
+            v = [v, s]
+        elif shape == "tuple":
+            v = (v, s)
+        elif shape == "mixed":
+            v = [v, s] if lvl % 2 else (s, v)
+        elif shape == "single":
+            v = [v]
+        elif shape == "with-ranges":
+            v = [range(1, 3), v, s]
+        elif shape == "dict-values":
+            v = [v, s] if lvl % 3 else [{"v": s, "n": lvl}, v]
+        else:
+            raise AssertionError(shape)
+    return v
+
+
+def _deep_data(base: dict[str, Any], spec: dict[str, Any], cf: bool = False) -> dict[str, Any]:
+    leaves = [counterfactual(x) for x in spec["leaves"]] if cf else spec["leaves"]
+    a = build_deep(spec["shape"], spec["depth"], leaves)
+    d = counterfactual(base) if cf else dict(base)
+    d["a"] = a
+    d["o"] = {"items": a}
+    return d
+
+
+def _deep_verdict(eng: Engine, st: Stmt, base: dict[str, Any], spec: dict[str, Any],
+                  mode: str, data: dict[str, Any] | None = None) -> dict[str, Any]:
+    main, templates = build([st])
+    case = {"main": main, "templates": templates,
+            "data": data if data is not None else _deep_data(base, spec),
+            "cf_data": lambda: _deep_data(base, spec, cf=True), "mode": mode,
+            "profile": "std", "catalog": False, "pre": []}
+    return eng.verdict(case)
+
+
+def _max_depth(eng: Engine) -> int:
+    """Largest nesting depth `{{ a }}` still renders at under the worker's recursion
+    limit (bisection on the real engine)."""
+    def ok(n: int) -> bool:
+        out, _err, _rec = eng.render("{{ a }}", {}, {"a": build_deep("list", n, ["Z<Q"])},
+                                     "sync", "std", False)
+        return out is not None
+
+    lo, hi = 200, 6000
+    if not ok(lo):
+        return lo
+    if ok(hi):
+        return hi
+    while hi - lo > 1:
+        mid = (lo + hi) // 2
+        if ok(mid):
+            lo = mid
+        else:
+            hi = mid
+    return lo
+
+
+def _deep_report(eng: Engine, ctx: Ctx, st: Stmt, base: dict[str, Any], spec: dict[str, Any],
+                 mode: str, v: dict[str, Any]) -> None:
+    cls = v["cls"]
+    want = {"raw-lt": "Z<Q", "raw-gt": "Z>Q", "raw-amp": "Z&Q", "raw-apos": "Z'Q",
+            "raw-quote": 'Z"Q'}[cls]
+
+    def bad(depth: int, leaves: list[str]) -> dict[str, Any] | None:
+        sp = dict(spec, depth=depth, leaves=leaves)
+        r = eng.verdict({**_case_of(st, base, sp, mode)})
+        return r if r["cls"] == cls else None
+
+    leaves = [want] if bad(spec["depth"], [want]) else spec["leaves"]
+    # smallest violating depth: first hit on an ascending ladder, then linear refinement
+    ladder = [x for x in (0, 1, 2, 3, 4, 6, 8, 12, 16, 24, 31, 32, 33, 48, 64, 100, 200, 400, 800)
+              if x < spec["depth"]] + [spec["depth"]]
+    prev, hit = -1, spec["depth"]
+    for x in ladder:
+        if bad(x, leaves):
+            hit = x
+            break
+        prev = x
+    for x in range(prev + 1, hit):
+        if hit - prev > 40:
+            break
+        if bad(x, leaves):
+            hit = x
+            break
+    sp = dict(spec, depth=hit, leaves=leaves)
+    mv = bad(hit, leaves) or v
+    culprit = mv["rec"].trail[0]["filter"] if mv["rec"].trail else "stringify"
+    shallow = eng.verdict(_case_of(st, base, dict(sp, depth=min(1, hit)), mode))
+    if shallow["cls"] == cls:
+        key = f"{cls}:{culprit if mv['rec'].trail else st.kind}"
+    else:
+        key = f"{cls}:nested-container:{culprit}"
+    main, templates = build([st])
+    words = set(_WORD.findall(main + " " + " ".join(templates.values())))
+    wit = {"deep": sp, "main": main, "templates": templates,
+           "data": {k: x for k, x in base.items() if k in words}, "mode": mode,
+           "profile": "std", "catalog": False, "output": _short(mv["out"]),
+           "markup_trail": mv["rec"].trail, "constructs": [st.kind],
+           "first_violating_depth": hit, "deepest_clean_depth_tried": prev}
+    ctx.violation(key, f"{cls.replace('raw-', 'raw ')} from a tainted string inside "
+                       f"{sp['shape']} containers nested {hit} deep: {_short(mv['out'])}", wit)
+
+
+def _case_of(st: Stmt, base: dict[str, Any], spec: dict[str, Any], mode: str) -> dict[str, Any]:
+    main, templates = build([st])
+    return {"main": main, "templates": templates, "data": _deep_data(base, spec),
+            "cf_data": lambda: _deep_data(base, spec, cf=True), "mode": mode,
+            "profile": "std", "catalog": False, "pre": []}
+
+
+def _deep(eng: Engine, spec: dict[str, Any], ctx: Ctx) -> None:
+    rng = random.Random(f"{spec['seed']}:deep:{spec['i']}")
+    dmax = _max_depth(eng)
+    ctx.mx("max:deep_depth_rendered", dmax)
+    depths = DEEP_DEPTHS + [max(201, dmax - 8), dmax]
+    g0 = Gen(rng, "std", eng.filter_names["std"])
+    ga = Gen(rng, "std", eng.filter_names["std"], urate=1.0)
+    ga.uatoms = DEEP_HEADS
+    fnames = [n for n in eng.filter_names["std"] if n in FT]
+    combos = [(d, sh) for d in depths for sh in DEEP_SHAPES]
+    k = 0
+    reported = 0
+    for rep_i in range(spec["reps"]):
+        base = gen_data(rng)
+        for ci, (depth, shape) in enumerate(combos):
+            if ci % spec["n"] != spec["i"]:
+                continue
+            leaves = [rng.choice(BLOCKS) for _ in range(5)] if rep_i or ci % 2 else list(BLOCKS)
+            dspec = {"shape": shape, "depth": depth, "leaves": leaves}
+            near_limit = depth > 200
+            progs: list[tuple[str, Chain]] = []
+            sinks = DEEP_SINKS[:3] if near_limit else DEEP_SINKS
+            for si, (sink_name, sink) in enumerate(sinks):
+                for hi_, head in enumerate(DEEP_HEADS[:2]):
+                    # the bare container always, plus core chains taking turns
+                    nrot = 1 if near_limit else (3 if depth <= 64 else 2)
+                    cores = [DEEP_CORE[0]] + [
+                        DEEP_CORE[1 + (ci + si * 3 + hi_ * 5 + j) % (len(DEEP_CORE) - 1)]
+                        for j in range(nrot)]
+                    for chn in cores:
+                        progs.append((sink_name + "|" + sink, Chain(head, list(chn))))
+            if not near_limit:
+                # every filter takes its turn on this container: as input and as argument
+                for t in range(14 if depth <= 64 else 6):
+                    name = fnames[(ci * 14 + t + rep_i * 7) % len(fnames)]
+                    sn = DEEP_SINKS[(ci + t) % len(DEEP_SINKS)]
+                    progs.append((sn[0] + "|" + sn[1], Chain(rng.choice(DEEP_HEADS), [g0.filt(name)])))
+                    if any(a for a in FT[name][2]):
+                        progs.append((sn[0] + "|" + sn[1],
+                                      Chain(rng.choice(["d0", "ls", "'hi'"]), [ga.filt(name)])))
+            ddata = _deep_data(base, dspec)
+            for sk, ch in progs:
+                sink_name, sink = sk.split("|", 1)
+                st = Stmt(f"deep:{sink_name}", _split_sink(sink, ch),
+                          {n: [t] for n, t in UNDEF_PARTIAL.items()} if "pu" in sink else None)
+                k += 1
+                mode = "async" if k % 2 else "sync"
+                v = _deep_verdict(eng, st, base, dspec, mode, ddata)
+                ctx.count("deep_programs")
+                if v["err"]:
+                    ctx.count("render_errors")
+                    ctx.seen("error_classes", v["err"])
+                    continue
+                ctx.count("renders_ok")
+                if v["flow"]:
+                    ctx.count("renders_with_flow")
+                    ctx.count("deep_renders_with_flow")
+                    ctx.nt("deep", build([st]), shape, depth, leaves, mode)
+                    ctx.seen("deep_depths_with_flow", "near-limit" if depth == dmax else
+                             ("near-limit-8" if near_limit else depth))
+                    ctx.seen("deep_shapes_with_flow", shape)
+                    ctx.seen("deep_sinks_with_flow", sink_name)
+                    ctx.seen("constructs", st.kind)
+                    for n in v["rec"].on_path:
+                        ctx.seen("filters", n)
+                if v["cls"]:
+                    reported += 1
+                    if reported <= 10:
+                        _deep_report(eng, ctx, st, base, dspec, mode, v)
+                    else:
+                        culprit = v["rec"].trail[0]["filter"] if v["rec"].trail else "stringify"
+                        ctx.violation(f"{v['cls']}:nested-container:{culprit}",
+                                      "tainted string inside nested containers reached the "
+                                      f"output raw: {_short(v['out'])}",
+                                      {"deep": dspec, "main": build([st])[0],
+                                       "templates": build([st])[1],
+                                       "data": {n: x for n, x in base.items() if n in set(
+                                           _WORD.findall(" ".join(build([st])[0:1])
+                                                         + " ".join(build([st])[1].values())))},
+                                       "mode": mode,
+                                       "profile": "std", "catalog": False,
+                                       "constructs": [st.kind], "unminimised": True})
+    ctx.sample({"kind": "deep", "depths": [str(d) for d in depths], "shapes": DEEP_SHAPES,
+                "example": "{{ a }} with a = build_deep(shape, depth, blocks); o = {'items': a}"})
+
+
+# ---------------------------------------------------------------------------
+# environment configurations other than a single default environment
+# ---------------------------------------------------------------------------
+
+CONFIG_TEMPLATES = {
+    "p": "[{{ x }}{{ x | upcase }}]",
+    "q": "{% capture c %}{{ x }}{% endcapture %}({{ c }}{{ ls | join: x }})",
+    "base": "b-{% block b %}{{ x }}{% endblock %}-{{ ls }}",
+    "child": "{% extends 'base' %}{% block b %}c{{ block.super }}{{ x }}{% endblock %}",
+}
+CONFIG_SITES = [
+    ("get_template", None, "p"),
+    ("get_template", None, "q"),
+    ("get_template", None, "base"),
+    ("get_template", None, "child"),
+    ("render", "{% render 'p', x: d0 %}", None),
+    ("render", "{% render 'q', x: b2, ls: ls %}", None),
+    ("render-for", "{% render 'p' for ls as x %}", None),
+    ("include", "{% include 'p', x: d0 %}", None),
+    ("include", "{% include 'q', x: b3 %}", None),
+    ("extends", "{% extends 'base' %}{% block b %}({{ block.super }}{{ d0 }}){% endblock %}", None),
+    ("include-child", "{% assign x = d1 %}{% include 'child' %}", None),
+]
+
+def _config_run(eng: Engine, what: str, site: tuple[Any, ...] | None, main: str | None,
+                data: dict[str, Any], mode: str, primed: bool, **opt: Any) -> tuple[str | None, str | None]:
+    """One configuration sequence on freshly built environments (not the shard's
+    shared ones).  Returns (output in the auto-escaping environment, error)."""
+    from liquid2 import CachingDictLoader
+    from liquid2 import DictLoader
+    from liquid2 import Environment
+
+    eng.ctx.ev()
+    try:
+        if what == "shared-loader":
+            loader = (CachingDictLoader if opt.get("caching", True) else DictLoader)(
+                dict(CONFIG_TEMPLATES))
+            plain = Environment(auto_escape=False, loader=loader)
+            esc = Environment(auto_escape=True, loader=loader)
+            assert site is not None
+            if primed:
+                for name in CONFIG_TEMPLATES:
+                    plain.get_template(name).render(x="hi", ls=["x"])
+            t = esc.get_template(site[2]) if site[1] is None else esc.from_string(site[1])
+            d = dict(data, x=data["d0"])
+        else:
+            raise AssertionError(what)
+        out = drive(t.render_async(**d)) if mode == "async" else t.render(**d)
+    except Exception as e:  # noqa: BLE001
+        return None, type(e).__name__
+    return out, None
+
+
+def _config_cls(out: str | None) -> str | None:
+    if out is None:
+        return None
+    raw, amp, _flow = scan(out, "std")
+    for ch, nm in CLASSES:
+        if raw.get(ch):
+            return nm
+    # these tiny programs never cut Markup: a raw `&` can only be the data's
+    return "raw-amp" if amp else None
+
+
+def _config(eng: Engine, spec: dict[str, Any], ctx: Ctx) -> None:
+    rng = random.Random(f"{spec['seed']}:config")
+    k = 0
+    for blk in BLOCKS:
+        data = gen_data(rng)
+        data.update(d0=blk, d1=blk + " " + blk, ls=[blk, blk], b1=blk, b2=blk, b3=blk, b4=blk)
+        small = {n: data[n] for n in ("d0", "d1", "b1", "b2", "b3", "b4", "ls")}
+        # (a) one caching loader shared by a non-escaping and an escaping environment
+        for site in CONFIG_SITES:
+            k += 1
+            mode = "async" if k % 2 else "sync"
+            ctx.count("config_sequences")
+            out, err = _config_run(eng, "shared-loader", site, None, small, mode, True)
+            if out is not None and FLOW_RE.search(out):
+                ctx.count("renders_with_flow")
+                ctx.count("config_renders_with_flow")
+                ctx.nt("config", "shared-loader", site, repr(small), mode)
+                ctx.seen("constructs", f"shared-loader:{site[0]}")
+            cls = _config_cls(out)
+            if cls is None:
+                continue
+            fresh, _ = _config_run(eng, "shared-loader", site, None, small, mode, False)
+            plain_loader, _ = _config_run(eng, "shared-loader", site, None, small, mode, True,
+                                          caching=False)
+            culprit = ("shared-caching-loader" if _config_cls(fresh) is None
+                       and _config_cls(plain_loader) is None else "loader")
+            ctx.violation(
+                f"{cls}:{culprit}:{site[0]}",
+                "a caching loader shared with an auto_escape=False environment hands the "
+                f"auto_escape=True environment a non-escaping template: {_short(out)} "
+                f"(same sequence without priming: {_short(fresh)})",
+                {"config": "shared-loader", "site": list(site), "templates": CONFIG_TEMPLATES,
+                 "data": small, "mode": mode, "output": out, "output_unprimed": fresh,
+                 "output_with_non_caching_loader": plain_loader})
+    ctx.sample({"kind": "config", "sites": [s[0] for s in CONFIG_SITES]})
 
 
 # input pre-states for the systematic sweep: (label, statements before, head, br?, type)
@@ -1388,6 +1746,38 @@ def _datecache(eng: Engine, spec: dict[str, Any], ctx: Ctx) -> None:
 
 def replay(wit: dict[str, Any], ctx: Ctx) -> None:
     eng = Engine(ctx)
+    if wit.get("config"):
+        mode = wit.get("mode", "sync")
+        print(f"replay C04 configuration sequence [{wit['config']}]")
+        if wit["config"] == "shared-loader":
+            site = tuple(wit["site"])
+            out, err = _config_run(eng, "shared-loader", site, None, wit["data"], mode, True)
+            fresh, _ = _config_run(eng, "shared-loader", site, None, wit["data"], mode, False)
+            print(f"  site {site}; escaping env output after priming: {out!r} (error {err});"
+                  f" unprimed: {fresh!r}")
+            cls = _config_cls(out)
+            if cls:
+                culprit = "shared-caching-loader" if _config_cls(fresh) is None else "loader"
+                ctx.violation(f"{cls}:{culprit}:{site[0]}", f"reproduced: {_short(out)}", wit)
+        return
+    if wit.get("deep"):
+        sp = wit["deep"]
+        case = {"main": wit["main"], "templates": wit.get("templates") or {},
+                "data": _deep_data(wit.get("data") or {}, sp),
+                "cf_data": _deep_data(wit.get("data") or {}, sp, cf=True),
+                "mode": wit.get("mode", "sync"), "profile": "std", "catalog": False, "pre": []}
+        v = eng.verdict(case)
+        print(f"replay C04 nested containers: shape={sp['shape']} depth={sp['depth']} "
+              f"leaves={sp['leaves']}")
+        print(f"  main   : {wit['main']!r}")
+        print(f"  output : {_short(v['out'])}  error={v['err']}")
+        print(f"  filters that produced raw Markup: {v['rec'].trail}")
+        print(f"  verdict: {v['cls']}")
+        if v["cls"]:
+            culprit = v["rec"].trail[0]["filter"] if v["rec"].trail else "stringify"
+            ctx.violation(f"{v['cls']}:nested-container:{culprit}",
+                          f"reproduced: {_short(v['out'])}", wit)
+        return
     if wit.get("datecache"):
         seq = {"prime": wit.get("prime"), "main": wit["main"], "data": wit["data"],
                "lookalike": wit.get("lookalike", False), "label": wit.get("label")}
